@@ -85,14 +85,23 @@ func TestVerifC07CacheNode(t *testing.T) {
 				}
 				var err error
 				loadEx := func(v any, _ time.Duration) error { return load(v) }
+				ctx := context.Background()
+				switch c.CX() {
+				case 1:
+					var cancel context.CancelFunc
+					ctx, cancel = context.WithTimeout(ctx, time.Hour)
+					defer cancel()
+				case 2:
+					var cancel context.CancelFunc
+					ctx, cancel = context.WithCancel(ctx)
+					cancel()
+				}
 				switch c.EP() {
 				case 1:
 					err = node.TakeWithExpire(prow, key, loadEx)
 				case 2:
-					err = node.TakeCtx(context.Background(), prow, key, load)
+					err = node.TakeCtx(ctx, prow, key, load)
 				case 3:
-					ctx, cancel := context.WithTimeout(context.Background(), time.Hour)
-					defer cancel()
 					err = node.TakeWithExpireCtx(ctx, prow, key, loadEx)
 				default:
 					err = node.Take(prow, key, load)
